@@ -1,2 +1,417 @@
-//! placeholder
-pub fn at_type_mismatch() {}
+//! C04 – values of the wrong runtime type are never admitted or reinterpreted.
+
+use crate::backends::Backend;
+use crate::c02::{fill_slots, Rep, RMAX};
+use crate::elems::{self, Elem, B1, D24D, W8};
+use crate::model::*;
+use crate::state::*;
+use crate::sym::*;
+use crate::vp_assert;
+use any_vec::any_value::*;
+use any_vec::traits::{Cloneable, Trait};
+use any_vec::{AnyVec, SatisfyTraits};
+use core::alloc::Layout;
+use core::any::TypeId;
+use core::marker::PhantomData;
+use core::mem::{size_of, MaybeUninit};
+use core::ptr::NonNull;
+
+// ---- "state at the rejection point" inspector, run by the assert_failed stub (Kani only)
+pub static mut INSPECT_MODE: u8 = 0; // 0 none, 1 unchanged, 2 valid prefix
+pub static mut INSPECT_FN: Option<fn()> = None;
+pub static mut VEC_PTR: *const () = core::ptr::null();
+pub static mut SNAP: Model = Model::new();
+pub static mut INSPECTED: bool = false;
+
+pub fn reset() {
+    unsafe {
+        INSPECT_MODE = 0;
+        INSPECT_FN = None;
+        VEC_PTR = core::ptr::null();
+        SNAP = Model::new();
+        INSPECTED = false;
+    }
+}
+
+pub fn at_type_mismatch() {
+    unsafe {
+        if let Some(f) = INSPECT_FN {
+            f();
+        }
+    }
+}
+
+fn inspect_mono<Tr: ?Sized + Trait, B: Backend, E: Elem>() {
+    unsafe {
+        let v = &*(VEC_PTR as *const AnyVec<Tr, B>);
+        INSPECTED = true;
+        if INSPECT_MODE == 1 {
+            vp_assert!(v.len() == SNAP.len, "VP: vector length changed before a type mismatch was rejected");
+            check_vec::<Tr, B, E>(v, &SNAP);
+        } else if INSPECT_MODE == 2 {
+            vp_assert!(v.len() <= SNAP.len && v.len() <= v.capacity(), "VP: vector invalid at the point a mismatched splice item is rejected");
+            let t = v.downcast_ref::<E>().unwrap();
+            let s = t.as_slice();
+            let j = any_usize();
+            if j < s.len() {
+                check_elem::<E>(&s[j], SNAP.id[j], SNAP.tag[j]);
+            }
+        }
+    }
+}
+
+pub fn arm<Tr: ?Sized + Trait, B: Backend, E: Elem>(v: &AnyVec<Tr, B>, m: &Model, mode: u8) {
+    unsafe {
+        VEC_PTR = v as *const AnyVec<Tr, B> as *const ();
+        SNAP = *m;
+        INSPECT_MODE = mode;
+        INSPECT_FN = Some(inspect_mono::<Tr, B, E>);
+    }
+}
+
+/// Offered value types (need not be zoo elements).
+pub trait Off: 'static + Sized {
+    fn mk() -> Self;
+}
+impl Off for u64 {
+    fn mk() -> Self {
+        0x0102030405060708
+    }
+}
+impl Off for i64 {
+    fn mk() -> Self {
+        -5
+    }
+}
+impl Off for f64 {
+    fn mk() -> Self {
+        1.5
+    }
+}
+impl Off for [u8; 8] {
+    fn mk() -> Self {
+        [7; 8]
+    }
+}
+impl Off for W8 {
+    fn mk() -> Self {
+        W8::make(NEW_ID, 1)
+    }
+}
+impl Off for B1 {
+    fn mk() -> Self {
+        B1::make(NEW_ID, 1)
+    }
+}
+impl Off for D24D {
+    fn mk() -> Self {
+        D24D::make(NEW_ID, 1)
+    }
+}
+impl Off for crate::elems::W8D {
+    fn mk() -> Self {
+        crate::elems::W8D::make(NEW_ID, 1)
+    }
+}
+impl Off for crate::elems::B3D {
+    fn mk() -> Self {
+        crate::elems::B3D::make(NEW_ID, 1)
+    }
+}
+
+#[derive(Copy, Clone, Debug, PartialEq, Eq)]
+pub enum Entry {
+    PushWrapper,
+    InsertWrapper,
+    PushRaw,
+    InsertRaw,
+    /// removal handle of a vector of `O` pushed into the vector of `V`
+    PushHandle,
+    InsertHandle,
+}
+
+/// offering a value of type `O` to a vector of `V`: panics iff `O != V`; on rejection the vector is
+/// unchanged at the rejection point (Kani: stub inspector) and afterwards (native replay).
+pub fn offer_type<Tr: ?Sized + Trait, B: Backend, V: Elem + SatisfyTraits<Tr>, O: Off + SatisfyTraits<Tr>>(p: crate::c01::P, entry: Entry) {
+    reset_all();
+    reset();
+    let (mut v, mut m) = build::<Tr, B, V>(p.cap, p.len, 0);
+    if !B::RESIZABLE {
+        assume(m.len < v.capacity());
+    }
+    let idx = p.idx.get();
+    assume(idx <= m.len);
+    let same = TypeId::of::<V>() == TypeId::of::<O>();
+    arm::<Tr, B, V>(&v, &m, 1);
+    let mut act = || match entry {
+        Entry::PushWrapper => v.push(AnyValueWrapper::new(O::mk())),
+        Entry::InsertWrapper => v.insert(idx, AnyValueWrapper::new(O::mk())),
+        Entry::PushRaw | Entry::InsertRaw => {
+            let val = O::mk();
+            let raw = unsafe { AnyValueRaw::new(NonNull::from(&val).cast::<u8>(), size_of::<O>(), TypeId::of::<O>()) };
+            vp_assert!(raw.value_typeid() == TypeId::of::<O>() && raw.size() == size_of::<O>(), "VP: AnyValueRaw misreports its type id / size");
+            if entry == Entry::PushRaw {
+                v.push(raw)
+            } else {
+                v.insert(idx, raw)
+            }
+            if same {
+                core::mem::forget(val);
+            }
+        }
+        Entry::PushHandle | Entry::InsertHandle => {
+            let mut y: AnyVec<Tr, any_vec::mem::Stack<64>> = AnyVec::new_in::<O>(any_vec::mem::Stack::<64>);
+            y.push(AnyValueWrapper::new(O::mk()));
+            let h = y.pop().unwrap();
+            vp_assert!(h.value_typeid() == TypeId::of::<O>() && h.size() == size_of::<O>(), "VP: removal handle misreports its type id / size");
+            if entry == Entry::PushHandle {
+                v.push(h)
+            } else {
+                v.insert(idx, h)
+            }
+        }
+    };
+    if same {
+        act();
+        let at = match entry {
+            Entry::PushWrapper | Entry::PushRaw | Entry::PushHandle => m.len,
+            _ => idx,
+        };
+        m.insert(at, NEW_ID, V::norm(1));
+        check_vec::<Tr, B, V>(&v, &m);
+    } else {
+        must_panic("Type mismatch", act);
+        check_vec::<Tr, B, V>(&v, &m);
+    }
+    drop(v);
+    reached_end();
+}
+
+/// splice with a mismatching item at position `bad` of the replacement: must panic; the vector is valid
+/// (a prefix of the original) at the rejection point.
+pub fn splice_type<Tr: ?Sized + Trait, B: Backend, V: Elem + SatisfyTraits<Tr>, O: Off>(p: crate::c02::P2) {
+    reset_all();
+    reset();
+    let (mut v, m) = build::<Tr, B, V>(p.cap, p.len, 0);
+    let s = p.start.get();
+    let e = p.end.get();
+    assume(s <= e && e <= m.len);
+    let n = p.r.get(); // good items before the bad one
+    assume(n <= 2);
+    if !B::RESIZABLE {
+        assume(m.len - (e - s) + n + 1 <= v.capacity());
+    }
+    arm::<Tr, B, V>(&v, &m, 2);
+    let mut slots: [MaybeUninit<V>; RMAX] = unsafe { MaybeUninit::uninit().assume_init() };
+    let _ = fill_slots::<V>(&mut slots, n);
+    let sp = slots.as_mut_ptr() as *mut V;
+    let bad = O::mk();
+    let badp = &bad as *const O as *mut u8;
+    must_panic("Type mismatch", || {
+        let it = Mixed::<V> { slots: sp, n, k: 0, bad: badp, bad_size: size_of::<O>(), bad_ty: TypeId::of::<O>() };
+        let _ = v.splice(s..e, it);
+    });
+    // native replay only: after unwinding the vector is still valid and droppable
+    vp_assert!(v.len() <= m.len && v.len() <= v.capacity(), "VP: vector invalid after a rejected splice");
+    drop(v);
+    reached_end();
+}
+
+/// `n` good raw items followed by one item of another type
+pub struct Mixed<V> {
+    slots: *mut V,
+    n: usize,
+    k: usize,
+    bad: *mut u8,
+    bad_size: usize,
+    bad_ty: TypeId,
+}
+impl<V: 'static> Iterator for Mixed<V> {
+    type Item = AnyValueRaw;
+    fn next(&mut self) -> Option<AnyValueRaw> {
+        let k = self.k;
+        self.k += 1;
+        if k < self.n {
+            Some(unsafe { AnyValueRaw::new(NonNull::new_unchecked(self.slots.add(k) as *mut u8), size_of::<V>(), TypeId::of::<V>()) })
+        } else if k == self.n {
+            Some(unsafe { AnyValueRaw::new(NonNull::new_unchecked(self.bad), self.bad_size, self.bad_ty) })
+        } else {
+            None
+        }
+    }
+    fn size_hint(&self) -> (usize, Option<usize>) {
+        let l = (self.n + 1).saturating_sub(self.k);
+        (l, Some(l))
+    }
+}
+impl<V: 'static> ExactSizeIterator for Mixed<V> {
+    fn len(&self) -> usize {
+        (self.n + 1).saturating_sub(self.k)
+    }
+}
+
+#[derive(Copy, Clone, Debug, PartialEq, Eq)]
+pub enum SwapPair {
+    ElemMutWrapper,
+    ElemMutRaw,
+    HandleWrapper,
+    HandleRaw,
+    WrapperElemMut,
+    RawElemMut,
+    ElemMutHandle,
+}
+
+/// `AnyValueMut::swap` between a handle into a vector of `V` and a value of type `O`:
+/// panics iff the types differ (nothing changes), exchanges exactly the two values otherwise.
+pub fn swap_type<Tr: ?Sized + Trait, B: Backend, V: Elem + SatisfyTraits<Tr>, O: Off + SatisfyTraits<Tr>>(p: crate::c01::P, pair: SwapPair) {
+    reset_all();
+    reset();
+    let (mut v, mut m) = build::<Tr, B, V>(p.cap, p.len, 0);
+    assume(m.len > 0);
+    let idx = p.idx.get();
+    assume(idx < m.len);
+    let same = TypeId::of::<V>() == TypeId::of::<O>();
+    let mut other = O::mk();
+    let op = &mut other as *mut O;
+    if !same {
+        // with a removal handle the vector is (legitimately) shortened while the handle lives
+        let mode = match pair {
+            SwapPair::HandleWrapper | SwapPair::HandleRaw => 0,
+            _ => 1,
+        };
+        arm::<Tr, B, V>(&v, &m, mode);
+    }
+    let mut act = || match pair {
+        SwapPair::ElemMutWrapper => {
+            let mut w = AnyValueWrapper::new(unsafe { core::ptr::read(op) });
+            let mut em = v.at_mut(idx);
+            em.swap(&mut w);
+            unsafe { core::ptr::write(op, w.downcast::<O>().unwrap()) };
+        }
+        SwapPair::WrapperElemMut => {
+            let mut w = AnyValueWrapper::new(unsafe { core::ptr::read(op) });
+            let mut em = v.at_mut(idx);
+            w.swap(&mut *em);
+            unsafe { core::ptr::write(op, w.downcast::<O>().unwrap()) };
+        }
+        SwapPair::ElemMutRaw => {
+            let mut raw = unsafe { AnyValueRaw::new(NonNull::new_unchecked(op as *mut u8), size_of::<O>(), TypeId::of::<O>()) };
+            let mut em = v.at_mut(idx);
+            em.swap(&mut raw);
+        }
+        SwapPair::RawElemMut => {
+            let mut raw = unsafe { AnyValueRaw::new(NonNull::new_unchecked(op as *mut u8), size_of::<O>(), TypeId::of::<O>()) };
+            let mut em = v.at_mut(idx);
+            raw.swap(&mut *em);
+        }
+        SwapPair::HandleWrapper => {
+            let mut w = AnyValueWrapper::new(unsafe { core::ptr::read(op) });
+            let mut h = v.remove(idx);
+            h.swap(&mut w);
+            unsafe { core::ptr::write(op, w.downcast::<O>().unwrap()) };
+            // put it back: the swapped-in value is now the removed one
+            core::mem::forget(h);
+        }
+        SwapPair::HandleRaw => {
+            let mut raw = unsafe { AnyValueRaw::new(NonNull::new_unchecked(op as *mut u8), size_of::<O>(), TypeId::of::<O>()) };
+            let mut h = v.remove(idx);
+            h.swap(&mut raw);
+            core::mem::forget(h);
+        }
+        SwapPair::ElemMutHandle => unreachable!(),
+    };
+    if same {
+        act();
+        // `other` now holds the old element idx; the vector holds NEW_ID there
+        let o = unsafe { &*(op as *const V) };
+        check_elem::<V>(o, m.id[idx], m.tag[idx]);
+        match pair {
+            SwapPair::HandleWrapper | SwapPair::HandleRaw => {
+                // handle was forgotten: the vector was truncated at idx (documented leak); elements before idx intact
+                vp_assert!(v.len() == idx, "VP: forgotten removal handle must leave the vector truncated at the index");
+                m.len = idx;
+                check_vec::<Tr, B, V>(&v, &m);
+            }
+            _ => {
+                m.set(idx, NEW_ID, V::norm(1));
+                check_vec::<Tr, B, V>(&v, &m);
+            }
+        }
+    } else {
+        must_panic("", act);
+    }
+    core::mem::forget(other);
+    core::mem::forget(v);
+    reached_end();
+}
+
+/// downcasts succeed exactly for the real type; type id / layout / size reports are the real ones,
+/// for the vector and every handle kind
+pub fn downcasts<Tr: ?Sized + Trait, B: Backend, V: Elem + SatisfyTraits<Tr>, O: Off>(p: crate::c01::P) {
+    reset_all();
+    let (mut v, mut m) = build::<Tr, B, V>(p.cap, p.len, 0);
+    assume(m.len > 0);
+    let idx = p.idx.get();
+    assume(idx < m.len);
+    let same = TypeId::of::<V>() == TypeId::of::<O>();
+    vp_assert!(v.element_typeid() == TypeId::of::<V>(), "VP: element_typeid() is not the real element type");
+    vp_assert!(v.element_layout() == Layout::new::<V>(), "VP: element_layout() is not the real element layout");
+    vp_assert!(v.downcast_ref::<O>().is_some() == same, "VP: downcast_ref succeeds iff the type is the real one");
+    vp_assert!(v.downcast_mut::<O>().is_some() == same, "VP: downcast_mut succeeds iff the type is the real one");
+    vp_assert!(v.downcast_ref::<V>().is_some(), "VP: downcast_ref to the real type failed");
+    {
+        let r = v.at(idx);
+        vp_assert!(r.value_typeid() == TypeId::of::<V>() && r.size() == size_of::<V>(), "VP: element reference misreports type id / size");
+        vp_assert!(r.downcast_ref::<O>().is_some() == same, "VP: ElementRef::downcast_ref succeeds iff real type");
+        vp_assert!(AnyValue::downcast_ref::<O>(&*r).is_some() == same, "VP: AnyValue::downcast_ref succeeds iff real type");
+        vp_assert!(r.as_bytes().len() == size_of::<V>(), "VP: element byte view has wrong length");
+    }
+    {
+        let mut r = v.at_mut(idx);
+        vp_assert!(r.value_typeid() == TypeId::of::<V>() && r.size() == size_of::<V>(), "VP: mutable element reference misreports type id / size");
+        vp_assert!(r.downcast_mut::<O>().is_some() == same, "VP: ElementMut::downcast_mut succeeds iff real type");
+        vp_assert!(AnyValueMut::downcast_mut::<O>(&mut *r).is_some() == same, "VP: AnyValueMut::downcast_mut succeeds iff real type");
+    }
+    {
+        let w = AnyValueWrapper::new(O::mk());
+        vp_assert!(w.value_typeid() == TypeId::of::<O>() && w.size() == size_of::<O>(), "VP: AnyValueWrapper misreports type id / size");
+        vp_assert!(w.downcast_ref::<V>().is_some() == same, "VP: AnyValueWrapper::downcast_ref succeeds iff real type");
+        core::mem::forget(w);
+    }
+    // removal handle: a failed downcast consumes (and destroys) the handle like a plain drop
+    {
+        let h = v.remove(idx);
+        vp_assert!(h.value_typeid() == TypeId::of::<V>() && h.size() == size_of::<V>(), "VP: removal handle misreports type id / size");
+        vp_assert!(h.downcast_ref::<O>().is_some() == same, "VP: removal handle downcast_ref succeeds iff real type");
+        let got = h.downcast::<O>();
+        vp_assert!(got.is_some() == same, "VP: removal handle downcast succeeds iff real type");
+        core::mem::forget(got);
+        let _ = m.remove(idx);
+        check_vec::<Tr, B, V>(&v, &m);
+    }
+    core::mem::forget(v);
+    reached_end();
+}
+
+/// lazy clone handles report the source's type id / size and downcast only to the real type
+pub fn downcasts_lazy<Tr: ?Sized + Trait + Cloneable, B: Backend, V: Elem + SatisfyTraits<Tr> + Clone, O: Off>(p: crate::c01::P) {
+    reset_all();
+    let (v, m) = build::<Tr, B, V>(p.cap, p.len, 0);
+    assume(m.len > 0);
+    let idx = p.idx.get();
+    assume(idx < m.len);
+    let same = TypeId::of::<V>() == TypeId::of::<O>();
+    {
+        let r = v.at(idx);
+        let lc = r.lazy_clone();
+        vp_assert!(lc.value_typeid() == TypeId::of::<V>() && lc.size() == size_of::<V>(), "VP: lazy clone misreports type id / size");
+        let before = elems::total_clones();
+        let got = lc.downcast::<O>();
+        vp_assert!(got.is_some() == same, "VP: lazy clone downcast succeeds iff real type");
+        vp_assert!(elems::total_clones() == before + if same { 1 } else { 0 }, "VP: lazy clone downcast clones exactly when it succeeds");
+        core::mem::forget(got);
+    }
+    check_vec::<Tr, B, V>(&v, &m);
+    core::mem::forget(v);
+    reached_end();
+}
